@@ -1422,8 +1422,42 @@ fn check_image(ctx: &mut Ctx, scn: &StoreScn, img: &DirImage, want: &Model, infl
             }
         }
     }
+    // what the recovered store acknowledges survives its own clean close and reopen (on a
+    // share of images): a crash-left directory must behave like any other directory
+    let mut after_writes: Option<Model> = None;
+    if nth % 4 == 2 && ctx.out.violations.is_empty() {
+        let mut m = first_scan.clone();
+        for (j, key) in keys.iter().enumerate() {
+            if j % 2 == 0 {
+                let val = Val { tag: 910_000 + j as u32, len: 11 }.bytes();
+                if set(&s.h, key, val.clone()) == Ok(()) {
+                    m.insert(key.clone(), val);
+                }
+            } else if del(&s.h, key).is_ok() {
+                m.remove(key);
+            }
+        }
+        after_writes = Some(m);
+    }
     drop(s);
     ctx.join_others();
+    if let Some(m) = after_writes {
+        match open_store(ctx, &irel, rec_cfg) {
+            Ok(s2) => {
+                match scan_all(&s2.h, keys) {
+                    Ok(m2) => {
+                        if let Some(d) = diff_models(&m2, &m) {
+                            ctx.viol("recovered-store-loses-writes", format!("{} after I/O record {}: writes acknowledged by the recovered store are not there after its clean close and reopen (store vs expected): {} [image files: {}]", label, k, d, files_desc()), "");
+                        }
+                    }
+                    Err(e) => ctx.viol("recovery-read-failed", format!("{} after I/O record {}: reopen after post-recovery writes: {}", label, k, e), ""),
+                }
+                drop(s2);
+                ctx.join_others();
+            }
+            Err(e) => ctx.viol("recovery-open-failed", format!("{} after I/O record {}: the recovered directory cannot be reopened after writes: {}", label, k, e), ""),
+        }
+    }
     // recovery is idempotent: a second open reads the same (on a share of images)
     if nth % 4 == 1 && ctx.out.violations.is_empty() {
         match open_store(ctx, &irel, rec_cfg) {
